@@ -50,13 +50,13 @@ def main():
             fam = "resolve"
         if fam == "engine":
             import check_engine
-            return check_engine.run_check(a.prop if a.prop in ENGINE else "C09", a.tier, a.replay)
+            return check_engine.run_check(a.prop if a.prop in ENGINE else "C09", a.tier, a.replay, label=a.prop)
         if fam == "resolve":
             import check_resolve
-            return check_resolve.run_check(a.prop if a.prop in RESOLVE else "C07", a.tier, a.replay)
+            return check_resolve.run_check(a.prop if a.prop in RESOLVE else "C07", a.tier, a.replay, label=a.prop)
         if fam == "app":
             import check_app
-            return check_app.run_check(a.prop if a.prop in APP else "C13", a.tier, a.replay)
+            return check_app.run_check(a.prop if a.prop in APP else "C13", a.tier, a.replay, label=a.prop)
     if a.prop in ENGINE:
         import check_engine
         return check_engine.run_check(a.prop, a.tier, a.replay)
